@@ -216,3 +216,12 @@ func zzAbsentReadsZero(m types.Message, tag uint16) bool {
 	}
 	return m.Bin64(tag) == bin.Bin64{} && m.Bin128(tag) == bin.Bin128{} && m.Bin256(tag) == bin.Bin256{}
 }
+
+func zzDistinct(tags ...uint16) {
+	for i := range tags {
+		for j := i + 1; j < len(tags); j++ {
+			zzverif.Assume(tags[i] != tags[j])
+		}
+	}
+}
+
